@@ -488,6 +488,9 @@ Definition menu (c : Z) : option fld :=
   else if c =? 12 then Some (pod_fld 8 8)                                 (* u64 *)
   else if c =? 13 then Some (pod_fld 16 16)                               (* u128 *)
   else if c =? 14 then Some (pod_fld 4 2)                                 (* [u16; 2] *)
+  else if c =? 15 then Some (mk 1 1 true true false true false VNonZero)   (* PackedValueChecked<NonZeroU8>: packed_value.rs 25-37 *)
+  else if c =? 16 then Some (mk 1 1 true true true true false VBool)       (* PackedValueChecked<bool> *)
+  else if c =? 17 then Some (mk 2 1 true true true true false VAny)        (* PackedValueChecked<u16> *)
   else if (20 <=? c) && (c <=? 32) then Some (pod_fld (c - 20) 1)         (* [u8; N] *)
   else None.
 
